@@ -12,7 +12,7 @@ import (
 )
 
 func init() {
-	register("C11", "Structural clauses that make a filtered view transfer as a self-contained tree: the sender's filesystem is only ever the hard-link-resetting wrapper; filterFS.Open consults, before delegating, every matcher filterFS.Walk consults, with the parent-aware query, and a hidden path yields an error wrapping os.ErrNotExist; the link-reset filter uses one map per walk, records every regular entry, and reports rewritten entries with the rewritten stat; the receiver's validators are wired (shared with C03); the walk prunes a directory only by literal prefix under the prefix-only flag of the right polarity, computed from the patterns of that polarity (shared with C10). Does not decide that the stream is valid for every filter configuration nor walk/open agreement as a semantic statement.", runC11)
+	register("C11", "Structural clauses that make a filtered view transfer as a self-contained tree: the sender's filesystem is only ever the hard-link-resetting wrapper; filterFS.Open consults, before delegating, every matcher filterFS.Walk consults, with the parent-aware query, and a hidden path yields an error wrapping os.ErrNotExist; the link-reset filter uses one map per walk, records every regular entry, and reports rewritten entries with the rewritten stat; the receiver's validators are wired (shared with C03); the walk prunes a directory only by literal prefix under the prefix-only flag of the right polarity, computed from the patterns of that polarity (shared with C10). The match state an entry inherits is read from the last element of the walk's open-directories stack. Does not decide that the stream is valid for every filter configuration nor walk/open agreement as a semantic statement.", runC11)
 }
 
 func runC11(c *Ctx) {
@@ -33,6 +33,60 @@ func runC11(c *Ctx) {
 	// exclude-side prune the exception flag, the include-side prune the
 	// include flag; shared with C10)
 	r10_1(c, "R11.7")
+	r11_8(c, "R11.8")
+}
+
+// R11.8: the match state an entry inherits is that of its nearest ancestor.
+//
+// The walk keeps the directories it is inside of on a stack; an entry's
+// patterns are evaluated with the match results of the LAST element (the
+// nearest ancestor still open). Read from any other slot, the results of an
+// outer directory stand for an inner one: children of an excluded directory
+// below a non-excluded one are announced although Open refuses them.
+func r11_8(c *Ctx, rule string) {
+	c.R.Rule(rule, "filterFS.Walk reads the inherited match info (and the containment prefix) of an entry from the last element of its open-directories stack")
+	fw := getFilterWalk(c, rule)
+	if fw == nil {
+		return
+	}
+	lit := fw.lit
+	n := 0
+	eng.Instrs(lit, func(in ssa.Instruction) {
+		ld, ok := in.(*ssa.UnOp)
+		if !ok || ld.Op != token.MUL {
+			return
+		}
+		fa, ok := ld.X.(*ssa.FieldAddr)
+		if !ok {
+			return
+		}
+		switch eng.FieldOwnerName(fa.X.Type(), fa.Field) {
+		case "fsutil.visitedDir.includeMatchInfo", "fsutil.visitedDir.excludeMatchInfo", "fsutil.visitedDir.pathWithSep":
+		default:
+			return
+		}
+		ia, ok := fa.X.(*ssa.IndexAddr)
+		if !ok {
+			return
+		}
+		cell := c.P.LoadedCell(ia.X)
+		if cell == "" {
+			return
+		}
+		n++
+		isLast := false
+		if bo, isB := eng.Canon(ia.Index).(*ssa.BinOp); isB && bo.Op == token.SUB {
+			if k1, isK := eng.ConstInt(bo.Y); isK && k1 == 1 {
+				if lc, isL := eng.Canon(bo.X).(*ssa.Call); isL && c.P.CalleeName(lc) == "builtin:len" && c.P.LoadedCell(lc.Call.Args[0]) == cell {
+					isLast = true
+				}
+			}
+		}
+		c.R.Check(isLast, rule, fmt.Sprintf("%s/nearest-ancestor#%d", c.name(lit), n), c.pos(ld), "read from the last element of the stack", "the inherited match state (or containment prefix) is read from a slot other than the last of the open-directories stack: an outer directory's verdict stands for the nearest one, walk and Open disagree")
+	})
+	if n == 0 {
+		c.R.OK(rule, c.name(lit)+"/nearest-ancestor", c.P.Pos(lit.Pos()), "the open-directories stack is not read by index in this callback (not interpreted)")
+	}
 }
 
 func r11_1(c *Ctx, rule string) {
